@@ -27,7 +27,7 @@ CLAIMED = {
             "`C02_stream` lifts it to any sequence of frames by induction; `spec_decode_encode` pins the decoder against the encoder for all "
             "frames. The model is tied to the real parser by correspondence on all 256 first bytes x length classes x masks and random "
             "multi-frame streams; the real outputs are judged by the same decoder.", "", "DESIGN.md §6 C02"),
-    "C03": ("Lean 4 theorems C03_segmentation, C03_timeouts, C03_resume (outcomes depend only on the bytes: any chunking, a TIMEOUT at any byte position any number of times)" + T_CORR + " (metamorphic)",
+    "C03": ("Lean 4 theorems C03_segmentation, C03_timeouts, C03_resume (outcomes depend only on the bytes: any chunking, a TIMEOUT at any byte position any number of times), C03d.C03_message_resume (timeout between the frames of a message), C03e.C03_nothing_parked" + T_CORR + " (metamorphic)",
             "Proof: `C03_recv_strict`/`C03_segmentation` (equal pending bytes, however split between buffer and chunks, give identical outcomes "
             "and identical pending bytes); `C03_timeouts` (after k calls that each raised TIMEOUT — inside header, extended length, mask key or "
             "payload — the stream from the start of the frame in progress, re-encoded from the stage fields ++ buffer ++ transport, is unchanged "
@@ -76,11 +76,11 @@ CLAIMED = {
             "Proof of the decision logic (policy = documented Spec for every sslopt/env/host) and of the ordering dial -> [CONNECT] -> wrap -> "
             "request over whole connect traces. That CPython/OpenSSL enforce verify_mode/check_hostname is trusted; thorough tier exercises "
             "loopback TLS servers with minted certificates.", "OpenSSL verification itself is not modelled.", "DESIGN.md §6 C11"),
-    "C12": ("Lean 4 theorems C12_short_writes, C12_one_frame_per_send, C12_senders (all interleavings of any number of threads), generated lock-scope facts" + T_CORR + " (co-simulation under a baton scheduler)",
+    "C12": ("Lean 4 theorems C12_short_writes, C12_one_frame_per_send, C12_senders, C12b.C12_receivers, C12c.C12_programs (all interleavings of any number of threads), generated lock-scope facts" + T_CORR + " (co-simulation under a baton scheduler)",
             "Proof: every short-write pattern puts exactly the frame on the wire; for any number of threads, frames, patterns and EVERY schedule "
             "the wire is whole frames in completion order (+ a prefix of the lock holder's frame), by an invariant preserved by every step; the "
             "lock scopes are generated facts. Real threads are co-simulated with the model on identical schedules (all schedules of length 9/11 "
-            "for 2 threads, 6/8 for 3). Receivers (each message intact to exactly one thread) are held by the oracle on real threads only.",
+            "for 2 threads, 6/8 for 3). Receivers: small-step model of concurrent recv() calls (C12_receivers: each message intact, in order, to exactly one call, every schedule); C12_programs: threads with whole programs of sends (a receiver answering pings is one of them); mixed real runs are replayed on the programs model.",
             "Lock acquire/release atomic; bytecode-level races inside a line not modelled.", "DESIGN.md §6 C12"),
     "C13": ("Lean 4 theorems C13_trace (callback trace = Spec trace for all legal histories, callback subsets, raising callbacks, plain/TLS), C13_open_first, C13_prompt" + T_CORR + " under a virtual-time baton scheduler (harness/simsched.py)",
             "Proof over the App model (run_forever, both built-in dispatchers, callbacks, close handshake): the ordered callback trace with "
@@ -88,22 +88,23 @@ CLAIMED = {
             "the next event has arrived. C13_trace/C13_open_first assume keepalive and reconnect off (those are C15/C16). The real "
             "run_forever runs under the scheduler on the same world/plan/schedule; traces must be identical; Spec predicates judge the real trace.",
             "The app consumes already-parsed events (byte level = C02-C07 layer); kernel/SSL buffering as simulated.", "DESIGN.md §6 C13"),
-    "C14": ("Lean 4 theorems C14_once_last, C14_return_value, C14_clean, C14_rerun (all worlds/plans/schedules), C14_terminates, C14_close_args (one connection), C14_app_close_counterexample" + T_CORR + " incl. second-thread close at every executed line",
+    "C14": ("Lean 4 theorems C14_once_last, C14_return_value, C14_clean, C14_rerun (all worlds/plans/schedules), C14_terminates, C14_close_args (one connection), C14_closing_is_not_an_error, C14b.C14_close_in_open_clean, C14_rerun_settings" + T_CORR + " incl. second-thread close at every executed line",
             "Proof: on_close once and last, return value, resources gone, re-run = first run, for every world, every callback plan (close / "
             "KeyboardInterrupt / raise anywhere) and schedule; termination and close arguments for one connection with legal traffic. "
             "Second-thread close (C14_async_close_safe) is NOT modelled: checked on real runs only (preemption at ticks and at every executed "
-            "line). Open findings F13 (close() inside on_open/on_reconnect; second-thread race in teardown) are recorded in known_findings.json "
-            "with qualified signatures and printed as KNOWN-FINDING.", "", "DESIGN.md §6 C14"),
+            "line). The former findings F13/F17 (close() inside on_open/on_reconnect; error reported after the application's own close; second-thread race in "
+            "teardown) are repaired in /repo (fix: commits, known_findings.json `fixed`); no finding is open.", "", "DESIGN.md §6 C14"),
     "C15": ("Lean 4 theorems C15_resources (<=1 transport and <=1 ping thread at every prefix, fully general), C15_stops, C15_retry, C15_interval" + T_CORR,
             "Proof: resource bound for every world/plan/schedule; the reconnect loop does nothing once keep_running is cleared and a server "
             "close frame or close() clears it; retry skeleton and exact interval for failed first attempts followed by any number of failures. "
-            "The external dispatcher is not modelled (real runs + Spec only); open findings F16 / F13-external recorded.", "", "DESIGN.md §6 C15"),
-    "C16": ("Lean 4 theorems C16_args (iff), C16_periodic, C16_no_false_positive (all data traffic/schedules), C16_detect_partial (iv > 2*to) + proved counterexamples for F12" + T_CORR + " in virtual time",
+            "The external dispatcher is not modelled (real runs + Spec only); the former finding F16 (exceptions under an external dispatcher) is repaired in /repo.", "", "DESIGN.md §6 C15"),
+    "C16": ("Lean 4 theorems C16_args (iff), C16_periodic, C16_no_false_positive (all arrival patterns/schedules), C16_detect (every accepted pair), C16b.C16_ping_payload (every ping of every run carries ping_payload)" + T_CORR + " in virtual time",
             "Proof: argument validation exactly as documented and before connecting; pings at start+k*iv; a peer answering every ping within "
-            "the timeout is never reported; detection within (T+to, T+2*to] when iv > 2*to. For to < iv <= 2*to the property is FALSE of the "
-            "code (F12, proved counterexample, recorded open finding with regime-qualified signatures); an unsolicited late pong reports a "
-            "responsive peer (F12). Oracle-only scenario: ping thread descheduled right after a ping was written.", "", "DESIGN.md §6 C16"),
-    "C17": ("Lean 4 theorems C17_frame_no_internal, C17_message_no_internal, C17_request_sizes (unconditional), C17_head_no_internal" + T_CORR,
+            "the timeout is never reported; a peer that stops answering is reported within (T+to, T+2*to] of the first unanswered ping T for "
+            "every accepted pair; every PING written carries the configured payload (invariant through all functions of the App model). The "
+            "former finding F12 (stamps overwritten by later pings / unsolicited pongs) is repaired in /repo (c89e1e8); its two counterexamples "
+            "are re-executed on the repaired model. Oracle-only scenario: ping thread descheduled right after a ping was written.", "", "DESIGN.md §6 C16"),
+    "C17": ("Lean 4 theorems C17_frame_no_internal, C17_message_no_internal, C17_request_sizes (unconditional), C17_head_no_internal, C17b.C17_recv_no_internal, C17c.C17_glue_recv/_send (the _socket glue, exhaustive correspondence)" + T_CORR,
             "Proof: on arbitrary bytes in any chunking followed by eof/silence recv_frame returns a frame or PROTO/CLOSED/TIMEOUT, and "
             "recv_data_frame a value or PROTO/PAYLOAD/CLOSED/TIMEOUT/transport error — never an internal error, never out of fuel (each loop "
             "turn consumes >= 2 bytes or ends: progress); every size passed to the transport is <= 16384 for every state/script/declared "
